@@ -21,8 +21,9 @@ from holopy.scattering.interface import determine_default_theory_for, interpret_
 import holopy.scattering.theory.multisphere as msmod
 
 ID = "C09"
-LEAN_MODULES = ["HoloProps.C09"]
-MODEL_MODULES = ["HoloModel.Cluster", "HoloModel.Rigid"]
+LEAN_MODULES = ["HoloProps.C09", "HoloProps.C09Gen"]
+MODEL_MODULES = ["HoloModel.Cluster", "HoloModel.Rigid", "HoloGen.PyRule"]
+GEN_DEPS = ["PyRule"]
 NOT_PROVED = [
     "invariance of the multi-sphere SOLUTION (iterative Fortran SCSMFO) under permutation and rotation: the theorems cover what is handed to the solver; the solution is searched at tightened tolerances (at default tolerances the order dependence is ~1e-3, reported, not flagged)",
     "one-sphere cluster = single-sphere solution at the level of fields: C02/C03 search",
